@@ -277,10 +277,11 @@ func (s *serverSocket) onAck(header *parser.PacketHeader, decode parser.Decode) 
 }
 
 func (s *serverSocket) Join(room ...Room) {
+	// The lock is held during the call, so that onClose (which replaces s.join
+	// with a no-op before leaving all rooms) cannot interleave with a join in progress.
 	s.joinMu.Lock()
-	join := s.join
-	s.joinMu.Unlock()
-	join(room...)
+	defer s.joinMu.Unlock()
+	s.join(room...)
 }
 
 func (s *serverSocket) Leave(room Room) {
